@@ -56,7 +56,7 @@ pub struct Prepared {
 }
 
 /// Decode a WorldCase into a parsed, component-valid world for its backend.
-pub fn prepare(c: &WorldCase) -> Prepared {
+pub fn prepare(c: &WorldCase) -> Option<Prepared> {
     let backend = BACKENDS[c.backend as usize % BACKENDS.len()];
     let vars = backends::variants(backend);
     let (variant, args) = vars[c.variant as usize % vars.len()].clone();
@@ -66,18 +66,37 @@ pub fn prepare(c: &WorldCase) -> Prepared {
     let w = witgen::generate(&c.tape, &profile);
     let text = w.to_text();
     let wname = witgen::wit_name(&w.world);
+    // A world that wit-parser or the component validator rejects is a generator
+    // shortcoming, not a finding: the case is discarded (and counted), never judged.
+    static DISCARDS: std::sync::atomic::AtomicU32 = std::sync::atomic::AtomicU32::new(0);
+    let discard = |why: String| {
+        let n = DISCARDS.fetch_add(1, std::sync::atomic::Ordering::Relaxed);
+        if n < 3 || std::env::var("VERIF_STRICT_GEN").is_ok() {
+            eprintln!("NOTE witgen produced an invalid world (case discarded): {why}");
+        }
+        if std::env::var("VERIF_STRICT_GEN").is_ok() {
+            vcommon::harness_error(format!("{why}\n{text}"));
+        }
+    };
     let (resolve, world) = match backends::resolve_input(&Input::Text(&text), Some(&wname)) {
         Ok(x) => x,
-        Err(e) => vcommon::harness_error(format!("witgen produced WIT that wit-parser rejects: {e:#}\n{text}")),
+        Err(e) => {
+            discard(format!("wit-parser: {e:#}"));
+            return None;
+        }
     };
     if let Err(e) = backends::component_valid(&resolve, world) {
-        vcommon::harness_error(format!("witgen produced a component-invalid world: {e}\n{text}"));
+        discard(format!("component validation: {e}"));
+        return None;
     }
-    Prepared { text, features: w.features.into_iter().collect(), resolve, world, backend, variant, args }
+    Some(Prepared { text, features: w.features.into_iter().collect(), resolve, world, backend, variant, args })
 }
 
 fn prop(c: &WorldCase, obs: &mut Obs) -> CaseResult {
-    let p = prepare(c);
+    let Some(p) = prepare(c) else {
+        obs.label("discarded-generator-invalid-world");
+        return Ok(());
+    };
     let tmp = tempfile::tempdir().map_err(|e| Failure::new("io", e.to_string()))?;
     let out = backends::generate(p.backend, &p.args, &p.resolve, p.world, Some(tmp.path()));
     obs.label(format!("{}", p.backend));
